@@ -6,12 +6,15 @@ import numpy as np
 from harness import comp_search as S
 from vlib import core
 
-PROPS = "Props/C18.v"
+PROPS = ["Props/C18.v", "Props/C18src.v"]
+TRANSLATORS = ["es"]
 THEOREMS = ["C18_es_returns_min", "C18_es_returns_min_number", "C18_es_result_is_survivor",
             "C18_es_all_filtered_is_failed_search", "C18_es_empty_only_if_all_filtered",
             "C18_es_later_empty_generation", "C18_es_depends_on_survivors_only", "C18_survivors_in_box",
             "C18_search_argmin", "C18_one_eval", "C18_mask_valid", "C18_mask_index_safe",
-            "C18_mask_fuel_suffices", "C18_hedge_distribution"]
+            "C18_mask_fuel_suffices", "C18_hedge_distribution",
+            # Props/C18src.v: Model/ESSelect.v IS the program regenerated from es_search.py / search_hedge.py (gen/Src_es.v)
+            "C18_selection_mask_is_source", "C18_generation_step_is_source", "C18_es_init_is_source", "C18_hedge_choice_is_source"]
 LEVEL = "proof"
 RULE = ("(i) mask: the real _get_selection_idx_mask_ for ALL 0<=mu,lamb<=120 (quick) / 300 (thorough); w0 from the "
         "function's own first statements (AST), premises of C18_mask_valid checked on every actual w0, model mask == real mask; "
@@ -25,6 +28,8 @@ RULE = ("(i) mask: the real _get_selection_idx_mask_ for ALL 0<=mu,lamb<=120 (qu
         "runs and on runs whose search set is widened from outside to several rows.  (iv) hedge: real ESSearchHedge over "
         "synthetic update_hedge histories (gamma 0..0.5, 2-4 strategies); prob vs exact model at 1e-9, choice exact.")
 TRUSTED = [
+    "translate/es.py (fail-closed AST translator of es_search.py / search_hedge.py -> gen/Src_es.v): validated on every run by evaluating the generated programs on the tie's cases (correspondence:es_source); the reading of NumPy per entry in Model/ESSrc.v's interpreters",
+    "canonical-text pins (ast.unparse of the alpha-renamed source) for the calls with their arguments, the step-size bookkeeping, the constructors and update_hedge: they pin the source, their meaning is covered by the dynamic ties only",
     "Coq 8.16.1 kernel + vm_compute (case evaluation); no native_compute",
     "hand-written model Model/ESSelect.v of es_search.py l.44-69/134-215, search_hedge.py l.58-67, bads.py l.1630-1655, tied by differential comparison (harness/comp_search.py)",
     "np.argsort modelled as a stable sort: on ties of the minimal acquisition value only z and membership are compared",
@@ -46,6 +51,48 @@ def _viol(ctx, key, what, replay):
         ctx.violate(key, what, replay)
 
 
+# ------------------------------------------------------------------------------- the generated programs on the same cases
+SRC_STATE = {}
+
+
+def _run(part, name, ty, okf, cases, shard, timeout=900, metas=None):
+    """core.run_cases for the hand-written model; when gen/Src_es.v was generated, the SAME literals are also evaluated by the generated
+    program (S.SRC_OK[part]).  Records (evaluated, cases, bad_src, bad_model) in SRC_STATE[name]."""
+    if SRC_STATE.setdefault("_available", S.src_generated_ok()):
+        ok, bad, sbad, log = S.run_cases_both(name, ty, okf, S.SRC_OK[part], cases, shard=shard, timeout=timeout)
+        if ok:
+            SRC_STATE[name] = (True, len(cases), sbad, set(bad), part, metas)
+            return ok, bad, log
+    ok, bad, log = core.run_cases(name, S.REQUIRES, ty, okf, cases, shard=shard, timeout=timeout)
+    SRC_STATE[name] = (False, len(cases), [], set(bad), part, metas)
+    return ok, bad, log
+
+
+def source_tie(ctx, broken):
+    recs = {k: v for k, v in SRC_STATE.items() if not k.startswith("_")}
+    evaluated = bool(recs) and all(v[0] for v in recs.values())
+    n = sum(v[1] for v in recs.values())
+    sb = {k: v[2] for k, v in recs.items() if v[2]}
+    only_src = {k: [i for i in v[2] if i not in v[3]] for k, v in recs.items()}
+    only_src = {k: v for k, v in only_src.items() if v}
+    detail = (f"{sum(len(v) for v in sb.values())} of {n} cases differ between gen/Src_es.v (src_mask / src_gen + src_ret / src_hedge, evaluated by vm_compute) "
+              f"and the real code {({k: len(v) for k, v in sb.items()} or '')}"
+              if evaluated else "NOT EVALUATED: gen/Src_es.v was not generated or does not build (source outside the translator's whitelist)")
+    ctx.coverage["source_tie"] = dict(evaluated=evaluated, cases=n, differing={k: len(v) for k, v in sb.items()},
+                                      per_part={k: v[1] for k, v in recs.items()})
+    if not ctx.oblige("correspondence:es_source", "correspondence", evaluated and not sb, detail):
+        if not evaluated:
+            broken.append(("correspondence:es_source", "the programs regenerated from es_search.py / search_hedge.py could not be evaluated: " + detail))
+        elif only_src:
+            broken.append(("correspondence:es_source", f"TRANSLATOR fault: the generated program differs from the real code on cases {({k: v[:3] for k, v in only_src.items()})} "
+                           "on which the hand-written model agrees with it"))
+        else:
+            broken.append(("correspondence:es_source", "generated program and hand-written model both differ from the real code on the same cases"))
+    elif any(v[3] for v in recs.values()):
+        ctx.notes.append("the program regenerated from the source AGREES with the real code where the hand-written model differs: "
+                         "the source has changed, Model/ESSelect.v no longer describes it")
+
+
 # ------------------------------------------------------------------------------- (i)
 def part_mask(ctx, broken):
     nmax = 120 if ctx.quick else 300
@@ -60,10 +107,10 @@ def part_mask(ctx, broken):
         key = "mask-premise" if msg.startswith("w0") or msg.startswith("sum") else "mask-invalid"
         _viol(ctx, key, f"_get_selection_idx_mask_({mu}, {lamb}): {msg}", dict(kind="mask", mu=mu, lamb=lamb))
     ctx.oblige("monitor:mask", "monitor", not problems, f"{len(problems)} (mu, lamb) pairs violate the mask facts")
-    okc, bad, log = core.run_cases("C18mask", S.REQUIRES, S.MASK_TY, S.MASK_OK, cases, shard=max(200, (len(cases) + 11) // 12), timeout=1500)
+    okc, bad, log = _run("mask", "C18mask", S.MASK_TY, S.MASK_OK, cases, shard=max(200, (len(cases) + 11) // 12), timeout=1500)
     rcases, rrecs = S.mask_random(ctx.rng, 1500 if ctx.quick else 10000)
     ctx.count(len(rcases), sum(1 for r in rrecs if isinstance(r[2], str) or r[2] != list(range(len(r[2])))))
-    okr, badr, logr = core.run_cases("C18maskr", S.REQUIRES, S.MASKR_TY, S.MASKR_OK, rcases, shard=500)
+    okr, badr, logr = _run("maskr", "C18maskr", S.MASKR_TY, S.MASKR_OK, rcases, shard=500)
     good = ctx.oblige("correspondence:mask", "correspondence", okc and okr and not bad and not badr,
                       f"{len(bad)} of {len(cases)} swept and {len(badr)} of {len(rcases)} synthetic cases differ; " + (log + logr)[-400:])
     if not good:
@@ -176,7 +223,7 @@ def part_runs(ctx, broken):
                       f"{json.dumps(later)}; box not on the mesh: {json.dumps(offmesh)}"):
         broken.append(("coverage:later_empty_generation", f"too few ES calls with a later generation without survivors ({later}) "
                        f"or with hard bounds off the search mesh ({offmesh})"))
-    ok1, bad1, log1 = core.run_cases("C18es", S.REQUIRES, S.ES_TY, S.ES_OK, es_cases, shard=max(1, (len(es_cases) + 11) // 12))
+    ok1, bad1, log1 = _run("es", "C18es", S.ES_TY, S.ES_OK, es_cases, shard=max(1, (len(es_cases) + 11) // 12))
     ctx.coverage["traces_validated_against_impl"] = len(es_cases) - len(bad1)
     if not ctx.oblige("correspondence:es_loop", "correspondence", ok1 and not bad1, f"{len(bad1)} of {len(es_cases)} ES calls differ; " + log1[-400:]):
         if bad1:
@@ -223,7 +270,7 @@ def part_hedge(ctx, broken):
     ctx.sample(dict(part="hedge", **{k: recs[len(recs) // 3][k] for k in ("g", "gamma", "rand", "prob", "chosen")}))
     ctx.oblige("monitor:hedge", "monitor", bad_mon == 0, f"{bad_mon} of {len(recs)} hedge calls violate the distribution facts")
     cases = [S.hedge_case(r) for r in recs if not any(np.isnan(r["prob"])) and not any(np.isnan(r["e"]))]
-    ok, bad, log = core.run_cases("C18hedge", S.REQUIRES, S.HEDGE_TY, S.HEDGE_OK, cases, shard=max(100, (len(cases) + 11) // 12))
+    ok, bad, log = _run("hedge", "C18hedge", S.HEDGE_TY, S.HEDGE_OK, cases, shard=max(100, (len(cases) + 11) // 12))
     if not ctx.oblige("correspondence:hedge", "correspondence", ok and not bad and len(cases) == len(recs),
                       f"{len(bad)} of {len(cases)} hedge calls differ ({len(recs) - len(cases)} NaN); " + log[-400:]):
         if bad:
@@ -234,13 +281,61 @@ def part_hedge(ctx, broken):
 
 
 def tie(ctx, broken):
+    SRC_STATE.clear()
     part_mask(ctx, broken)
     part_runs(ctx, broken)
     part_hedge(ctx, broken)
+    source_tie(ctx, broken)
 
 
 def search(ctx, broken):
-    """Something is broken and the monitors above found no concrete input: look further afield."""
+    """Something is broken and the monitors above found no concrete input: look further afield.  First cases AIMED at the construct
+    the translator could not read / reads differently (translate.es.aim(); the reference only orders the search), judged by the
+    declarative monitors alone; then the broad panel."""
+    try:
+        from translate import es as TE
+        regions = TE.aim()
+    except Exception:
+        regions = []
+    ctx.coverage["aimed_search"] = dict(regions=regions)
+    if any(r in regions for r in ("loop", "return", "init", "?")):
+        n = 600 if ctx.quick else 3000
+        kinds = {}
+        for j in range(n):
+            seed = ctx.seed * 100003 + j
+            c = S.es_direct(seed)
+            kind, msg, key = S.es_monitor(c)
+            kinds[kind] = kinds.get(kind, 0) + 1
+            if kind == "bad" and key:
+                ctx.violate(key, f"ESSearchELL.__call__ on a synthetic state (lamb={c['lamb']}, n_search_iter={c['iters']}, survivors per generation "
+                                 f"{[g[1].shape[0] for g in c['gens']]}): {msg}", dict(kind="es-direct", seed=seed))
+                ctx.coverage["aimed_search"]["es_direct"] = kinds
+                return True
+        ctx.coverage["aimed_search"]["es_direct"] = kinds
+    if "mask" in regions or "?" in regions:
+        try:
+            cases, recs, problems = S.mask_sweep(180 if ctx.quick else 400)
+        except Exception as ex:
+            problems = []
+            ctx.notes.append("aimed mask sweep crashed: " + repr(ex)[:200])
+        for mu, lamb, msg, w0, real in problems[:1]:
+            key = "mask-premise" if msg.startswith("w0") or msg.startswith("sum") else "mask-invalid"
+            ctx.violate(key, f"_get_selection_idx_mask_({mu}, {lamb}): {msg}", dict(kind="mask", mu=mu, lamb=lamb))
+            return True
+    if "hedge" in regions or "update" in regions or "?" in regions:
+        for gamma, n in HEDGE_CFGS + [(0.3, 3), (0.0, 3), (0.1, 4)]:
+            try:
+                recs = S.hedge_drive(ctx.rng, 400, gamma, n)
+            except Exception as ex:
+                ctx.violate("hedge-choice", f"ESSearchHedge with a portfolio of {n} strategies (gamma={gamma}) raised {type(ex).__name__}: {str(ex)[:160]} "
+                                            "instead of drawing a strategy and letting it propose", dict(kind="hedge-crash", gamma=gamma, n=n))
+                return True
+            for r in recs:
+                msg = S.hedge_monitor(r)
+                if msg:
+                    ctx.violate("hedge-choice" if "chosen" in msg else "hedge-distribution", msg,
+                                dict(kind="hedge", rec={k: r[k] for k in ("g", "gamma", "beta", "seed", "n", "D")}))
+                    return True
     for extra in range(1, 3):
         for cfg in S.panel(True, ctx.seed + 17 * extra) + [S.extra_band_cfg(ctx.seed + 17 * extra, j) for j in range(6)]:
             out = S.run_bads(cfg)
@@ -299,6 +394,13 @@ def replay(ctx, rp):
         print(f"replay: hedge g={fresh['g']} gamma={fresh['gamma']} -> prob={fresh['prob']} chosen={fresh['chosen']}")
         print("replay:", msg or "property holds on this input now")
         return 1 if msg else 0
+    if kind == "es-direct":
+        c = S.es_direct(r["seed"])
+        kd, msg, key = S.es_monitor(c)
+        print(f"replay: ESSearchELL.__call__ synthetic state seed={r['seed']} lamb={c['lamb']} generations {[g[1].shape[0] for g in c['gens']]} "
+              f"returned {c['ret'] if (c['ret'] is None or isinstance(c['ret'], str)) else [c['ret'][0].tolist(), c['ret'][1]]} exc={c['exc']}")
+        print("replay:", f"{key}: {msg}" if kd == "bad" else "property holds on this input now")
+        return 1 if kd == "bad" else 0
     if kind == "hedge-crash":
         import random
         try:
